@@ -28,6 +28,9 @@ type Program struct {
 	NoInit         map[string]bool // packages whose init function is not executed
 	RepoDir        string
 	NoIfConv       bool
+	Subst          map[*ssa.Function]*ssa.Function // verified-contract substitutions (callee -> harness contract function)
+	Shadow         bool // validate every symbolic operation against its concrete semantics under the path's model
+	Concrete       map[string]string // if set: nondet inputs take these concrete values (translator validation / debugging)
 	pur            *purity
 }
 
@@ -171,4 +174,36 @@ func fileHash(path string) string {
 		return "missing"
 	}
 	return fmt.Sprintf("%x", sha256.Sum256(b))[:16]
+}
+
+// SetSubst installs contract substitutions given as "pkgpath.Func" -> "pkgpath.Contract"; pairs whose functions are
+// missing or whose signatures differ are ignored (the original code is then interpreted). Returns what was applied.
+func (p *Program) SetSubst(pairs map[string]string) []string {
+	p.Subst = map[*ssa.Function]*ssa.Function{}
+	var applied []string
+	find := func(q string) *ssa.Function {
+		i := strings.LastIndex(q, ".")
+		if i < 0 {
+			return nil
+		}
+		sp := p.SSAPkgs[repoModule+"/"+q[:i]]
+		if sp == nil {
+			return nil
+		}
+		return sp.Func(q[i+1:])
+	}
+	keys := make([]string, 0, len(pairs))
+	for k := range pairs {
+		keys = append(keys, k)
+	}
+	sort.Strings(keys)
+	for _, from := range keys {
+		f, t := find(from), find(pairs[from])
+		if f == nil || t == nil || !types.Identical(f.Signature, t.Signature) {
+			continue
+		}
+		p.Subst[f] = t
+		applied = append(applied, from+" -> "+pairs[from])
+	}
+	return applied
 }
